@@ -436,5 +436,38 @@ def run(ctx):
     l = ("param", "l")
     want = ("comp", "list", ("call", ("free", "hyphenatedict"), (("elem", l, 0),), ()), ((l, ()),), (0,))
     ctx.ob("C19.R4", fi, len(ps) == 1 and N.canon_lids(ps[0].retval) == want, "hyphenatelist hyphenates every entry, in order", key="hyphenatelist")
+    # the ladder asks the emitters in a fixed order and falls back only on NotImplementedError: an emitter inherited from a *more general* class
+    # than the one that describes this construct answers first and describes something else (e.g. an `_emitseq` hoisted into Adapter pre-empts
+    # the `_emitfulltype` a string macro patches onto its StringEncoded instance: the string is exported as raw bytes)
+    nspec = 0
+    for ci in M.construct_classes():
+        mro = [c.name for c in ci.mro]
+        lev = {}
+        for m_ in KSY_METHODS:
+            f_ = M.resolve(ci.name, m_)
+            if f_ is not None and f_.cls is not None and f_.cls.name != "Construct":
+                lev[m_] = mro.index(f_.cls.name)
+        if not lev:
+            continue
+        nspec += 1
+        ctx.ob("C19.R4", ci.name, len(set(lev.values())) == 1, "%s: its schema emitters come from one class (%s); a mix lets the more general one pre-empt the more specific one in the fallback ladder" % (
+            ci.name, {m_: mro[i_] for m_, i_ in lev.items()}), key="%s emitter specificity" % ci.name, loc=ci.relpath)
+    for mname, mf in sorted(M.macros().items()):
+        patched = {c.name for c in M.closures(mf) if c.name in KSY_METHODS}
+        if not patched:
+            continue
+        rets = [p.retval for p in paths_of(ctx, mf) if p.returns and p.retval is not None and p.retval[0] == "ctor"]
+        for rcls in sorted({r[1] for r in rets if r[1] in M.classes}):
+            nspec += 1
+            bad = []
+            for m_ in KSY_METHODS:
+                if m_ in patched:
+                    continue
+                f_ = M.resolve(rcls, m_)
+                if f_ is not None and f_.cls is not None and f_.cls.name not in ("Construct", rcls):
+                    bad.append("%s from %s" % (m_, f_.cls.name))
+            ctx.ob("C19.R4", mf, not bad, "%s patches %s onto a %s: no other schema emitter is inherited from a base class of %s (%s)" % (mname, sorted(patched), rcls, rcls, bad or "none"), key="%s emitter specificity" % mname)
+    if nspec < 20:
+        ctx.error("C19.R4: %d emitter-specificity instances, floor 20" % nspec)
     ctx.floor("C19.R4", 16)
     ctx.control("C19.R1", hyphen("if_") == "if" and hyphen("repeat_expr") == "repeat-expr" and hyphen("bogus_key") not in KAITAI_ATTR_KEYS)
